@@ -339,6 +339,41 @@ pub struct World {
 	pub scenario2: Vec<usize>,
 }
 
+/// The parts of a world that a run on top of it advances: saved before, restored after, so that every
+/// run over one world (and the replay of one of them in a fresh process) starts from the same state.
+pub struct WorldMark {
+	n_blocks: usize,
+	rng: SimRng,
+	wallet_rng: SimRng,
+	next_key: u32,
+	proof_ctr: u64,
+	n_nrd_keys: usize,
+}
+
+impl World {
+	pub fn mark(&self) -> WorldMark {
+		WorldMark {
+			n_blocks: self.blocks.len(),
+			rng: self.rng.clone(),
+			wallet_rng: self.wallet.rng.clone(),
+			next_key: self.wallet.next_key,
+			proof_ctr: self.proof_ctr,
+			n_nrd_keys: self.nrd_keys.len(),
+		}
+	}
+
+	/// (the builder node keeps the blocks mined since the mark; they are valid blocks on side
+	/// branches and change nothing a later run reads)
+	pub fn reset_to(&mut self, m: &WorldMark) {
+		self.blocks.truncate(m.n_blocks);
+		self.rng = m.rng.clone();
+		self.wallet.rng = m.wallet_rng.clone();
+		self.wallet.next_key = m.next_key;
+		self.proof_ctr = m.proof_ctr;
+		self.nrd_keys.truncate(m.n_nrd_keys);
+	}
+}
+
 pub fn header_time_plus(h: &BlockHeader, secs: i64) -> chrono::DateTime<chrono::Utc> {
 	h.timestamp + Duration::seconds(secs)
 }
@@ -721,7 +756,12 @@ impl World {
 		txs: Vec<Transaction>,
 		note: String,
 	) -> Result<usize, String> {
-		let res = self.builder.chain().process_block(block.clone(), self.opts);
+		// (a run restored to an earlier mark re-creates, byte for byte, blocks the builder already has)
+		let res = if self.builder.chain().block_exists(block.hash()).unwrap_or(false) {
+			Ok(None)
+		} else {
+			self.builder.chain().process_block(block.clone(), self.opts)
+		};
 		if let Err(e) = res {
 			return Err(format!(
 				"builder rejected honest block h{} on parent {} ({}): {:?}",
